@@ -31,6 +31,7 @@ Pdup.__qualname__ = 'P'      # same module, same qualified name, same repr as P:
 class SelfA: pass            # placeholders for "the generated dataclass itself" (C10: self-referential fields); the real
 class SelfB(SelfA): pass     # classes are created per case and substituted through INST_FACTORY when values are built
 class Loc: pass              # placeholder for a class defined inside a function (C10: names of the calling frame)
+class Recv: pass             # placeholder for "the object the method is called on", passed again as an argument (call layer)
 
 
 class Text: pass             # a user class whose name is also exported by `typing` (typing.Text is str)
@@ -65,7 +66,7 @@ CLASSES = [object, type, abc.ABCMeta, NoneType, bool, int, float, str, bytes, tu
            collections.abc.Sequence, collections.abc.Iterable, collections.abc.Collection, collections.abc.Container,
            collections.abc.Set, collections.abc.MutableSet, collections.abc.MutableSequence, collections.abc.Mapping,
            collections.abc.MutableMapping, collections.abc.Iterator, GeneratorType, ListIterator,
-           P, C1, C2, G, U, MI, L, TS, Pdup, NT1, NT2, NT3, DC, Text, Counter, collections.Counter, map, filter, SelfA, SelfB, Loc]
+           P, C1, C2, G, U, MI, L, TS, Pdup, NT1, NT2, NT3, DC, Text, Counter, collections.Counter, map, filter, SelfA, SelfB, Loc, Recv]
 IDX = {c: i for i, c in enumerate(CLASSES)}
 NAMES = {}
 
